@@ -38,8 +38,8 @@ Lemma go_skip dec pre : forall s run,
 Proof. induction pre as [|a pre IH]; intros s run; [reflexivity|]. cbn [app length unescape_go]. apply IH. Qed.
 Lemma fixup_skip pre : forall s, fixup (pre ++ s) (length pre) = fixup s 0.
 Proof. induction pre as [|a pre IH]; intros s; [reflexivity|]. cbn [app length fixup]. apply IH. Qed.
-Lemma pyeval_skip pre : forall s, pyeval (pre ++ s) (length pre) = pyeval s 0.
-Proof. induction pre as [|a pre IH]; intros s; [reflexivity|]. cbn [app length pyeval]. apply IH. Qed.
+Lemma bytes_eval_skip pre : forall s, bytes_eval (pre ++ s) (length pre) = bytes_eval s 0.
+Proof. induction pre as [|a pre IH]; intros s; [reflexivity|]. cbn [app length bytes_eval]. apply IH. Qed.
 
 (* ---------------- one escape of the family is one alternative of the regex ---------------- *)
 Definition follows (i : item) (s : list N) : Prop :=
@@ -184,8 +184,8 @@ Qed.
 Lemma pad_byte i : item_ok i -> item_byte (pad i) = item_byte i.
 Proof. destruct i as [| |d]; try reflexivity. destruct d as [|a [|]]; reflexivity. Qed.
 
-Lemma pyeval_bind_ok s k b w : pyeval s k = Ok (b, w) ->
-  forall x v, (do y <- pyeval s k; Ok (x :: fst y, v || snd y)) = Ok (x :: b, v || w) :> outcome (list N * bool) unit.
+Lemma bytes_eval_bind_ok s k b w : bytes_eval s k = Ok (b, w) ->
+  forall x v, (do y <- bytes_eval s k; Ok (x :: fst y, v || snd y)) = Ok (x :: b, v || w) :> outcome (list N * bool) unit.
 Proof. intros -> x v. reflexivity. Qed.
 
 Lemma oct_len_app d s : (1 <= length d <= 3)%nat -> Forall c_octal d -> nth_is is_oct s 0 = false ->
@@ -203,45 +203,45 @@ Qed.
 Lemma oct_value_app d s : oct_value (d ++ s) (length d) = digits_value 8 (fun c => c - 48) d.
 Proof. unfold oct_value, digits_value. rewrite firstn_app, Nat.sub_diag, firstn_all. cbn [firstn]. now rewrite app_nil_r. Qed.
 
-Lemma pyeval_oct_step d s : (1 <= length d)%nat -> Forall c_octal d ->
-  pyeval (92 :: d ++ s) 0 =
-  (do x <- pyeval (d ++ s) (oct_len (d ++ s));
+Lemma bytes_eval_oct_step d s : (1 <= length d)%nat -> Forall c_octal d ->
+  bytes_eval (92 :: d ++ s) 0 =
+  (do x <- bytes_eval (d ++ s) (oct_len (d ++ s));
    Ok (oct_value (d ++ s) (oct_len (d ++ s)) mod 256 :: fst x, (255 <? oct_value (d ++ s) (oct_len (d ++ s))) || snd x)).
 Proof.
   intros Hlen Hd. destruct d as [|a d]; [cbn in Hlen; lia|]. inversion Hd as [|? ? Ha _]; subst.
-  cbn [app]. cbn [pyeval]. change (N.eqb 92 BSL) with true. cbv iota.
+  cbn [app]. cbn [bytes_eval]. change (N.eqb 92 BSL) with true. cbv iota.
   assert (Hne : simple_escape a = None /\ N.eqb a 39 = false /\ N.eqb a 10 = false).
   { unfold c_octal in Ha. unfold simple_escape.
     repeat match goal with |- context [N.eqb a ?k] => destruct (N.eqb_spec a k); [lia|] end. auto. }
   destruct Hne as (-> & -> & ->). rewrite (oct_is_oct a) by assumption. reflexivity.
 Qed.
 
-Lemma pyeval_item i s b w : item_ok i -> run_tail s -> pyeval s 0 = Ok (b, w) ->
-  pyeval (item_text (pad i) ++ s) 0 = Ok (item_byte i :: b, w).
+Lemma bytes_eval_item i s b w : item_ok i -> run_tail s -> bytes_eval s 0 = Ok (b, w) ->
+  bytes_eval (item_text (pad i) ++ s) 0 = Ok (item_byte i :: b, w).
 Proof.
   intros Hok Hs Hrest. destruct i as [e v | d | d]; cbn [item_text item_ok pad item_byte] in *.
-  - cbn [app pyeval]. change (N.eqb 92 BSL) with true. cbv iota.
+  - cbn [app bytes_eval]. change (N.eqb 92 BSL) with true. cbv iota.
     assert (He : N.eqb e 39 = false /\ N.eqb e 10 = false).
     { unfold c_named in Hok. cbn in Hok.
       repeat (destruct Hok as [Hok|Hok]; [inversion Hok; subst; split; reflexivity|]). destruct Hok. }
     destruct He as [-> ->]. rewrite (named_simple _ _ Hok).
-    change (pyeval (e :: s) 1) with (pyeval s 0). rewrite Hrest. reflexivity.
+    change (bytes_eval (e :: s) 1) with (bytes_eval s 0). rewrite Hrest. reflexivity.
   - destruct Hok as (Hlen & Hd & Hv).
     assert (Hnext : nth_is is_oct s 0 = false).
     { destruct Hs as [-> | [r ->]]; reflexivity. }
-    cbn [app]. rewrite (pyeval_oct_step d s) by (assumption || lia).
-    rewrite oct_len_app, pyeval_skip, Hrest, oct_value_app by (assumption || lia).
+    cbn [app]. rewrite (bytes_eval_oct_step d s) by (assumption || lia).
+    rewrite oct_len_app, bytes_eval_skip, Hrest, oct_value_app by (assumption || lia).
     cbn [obind fst snd]. rewrite N.mod_small by exact Hv.
     replace (255 <? _) with false by lia. reflexivity.
   - destruct Hok as (Hlen & Hd).
     assert (Hpy : forall a b', c_hex a -> c_hex b' ->
-       pyeval (92 :: 120 :: a :: b' :: s) 0 = Ok (c_hexval a * 16 + c_hexval b' :: b, w)).
-    { intros a b' Ha Hb. cbn [pyeval]. change (N.eqb 92 BSL) with true. cbv iota.
+       bytes_eval (92 :: 120 :: a :: b' :: s) 0 = Ok (c_hexval a * 16 + c_hexval b' :: b, w)).
+    { intros a b' Ha Hb. cbn [bytes_eval]. change (N.eqb 92 BSL) with true. cbv iota.
       change (N.eqb 120 39) with false. change (N.eqb 120 10) with false.
       change (simple_escape 120) with (@None N). change (is_oct 120) with false.
       change (N.eqb 120 LX) with true. cbv iota. unfold nth_is. cbn [nth_error nth].
       rewrite (hex_is_hex a), (hex_is_hex b') by assumption. cbn [andb].
-      change (pyeval (120 :: a :: b' :: s) 3) with (pyeval s 0). rewrite Hrest. cbn [obind fst snd].
+      change (bytes_eval (120 :: a :: b' :: s) 3) with (bytes_eval s 0). rewrite Hrest. cbn [obind fst snd].
       now rewrite !hexval_eq by assumption. }
     destruct d as [|a [|b' [|? ?]]]; cbn [length] in Hlen; try lia;
       repeat match goal with H : Forall _ (_ :: _) |- _ => inversion H; subst; clear H end;
@@ -250,12 +250,12 @@ Proof.
     + rewrite Hpy by assumption. unfold digits_value. cbn. reflexivity.
 Qed.
 
-Lemma pyeval_items : forall its, Forall item_ok its ->
-  pyeval (items_text (map pad its)) 0 = Ok (map item_byte its, false).
+Lemma bytes_eval_items : forall its, Forall item_ok its ->
+  bytes_eval (items_text (map pad its)) 0 = Ok (map item_byte its, false).
 Proof.
   induction its as [|i its IH]; intros Hok; [reflexivity|]. inversion Hok; subst.
   unfold items_text in *. cbn [flat_map map].
-  apply pyeval_item; [assumption|apply items_run_tail|now apply IH].
+  apply bytes_eval_item; [assumption|apply items_run_tail|now apply IH].
 Qed.
 
 (* ---------------- a run ---------------- *)
@@ -271,7 +271,7 @@ Lemma unescape_run_items dec its t : ascii_compatible dec -> Forall item_ok its 
   dec (map item_byte its) = Some t ->
   unescape_run dec (items_text its) = Ok (t, false).
 Proof.
-  intros Hc Hok Hd. unfold unescape_run. rewrite fixup_items, pyeval_items by assumption.
+  intros Hc Hok Hd. unfold unescape_run. rewrite fixup_items, bytes_eval_items by assumption.
   cbn [lift_crash obind fst snd]. now rewrite (decode_run_ok _ _ _ Hc Hd).
 Qed.
 
@@ -285,10 +285,10 @@ Proof. intros H. unfold escape_len, nth_is. cbn [nth_error]. destruct (N.eqb_spe
 
 Lemma go_lit_flush dec c s run : c <> 92 ->
   unescape_go dec (c :: s) 0 run =
-  (do a <- flush dec run; do b <- unescape_go dec (c :: s) 0 []; Ok (fst a ++ fst b, snd a || snd b)).
+  (do a <- flush_run dec run; do b <- unescape_go dec (c :: s) 0 []; Ok (fst a ++ fst b, snd a || snd b)).
 Proof.
-  intros H. cbn [unescape_go]. rewrite escape_len_lit by assumption. cbn [flush].
-  destruct (flush dec run) as [[ta wa]| |]; cbn [obind]; try reflexivity.
+  intros H. cbn [unescape_go]. rewrite escape_len_lit by assumption. cbn [flush_run].
+  destruct (flush_run dec run) as [[ta wa]| |]; cbn [obind]; try reflexivity.
   destruct (unescape_go dec s 0 []) as [[tb wb]| |]; cbn [obind fst snd]; reflexivity.
 Qed.
 
@@ -298,7 +298,7 @@ Proof.
   induction cs as [|c cs IH]; intros s H.
   - cbn. destruct (unescape_go dec s 0 []) as [[tb wb]| |]; reflexivity.
   - inversion H; subst. cbn [app unescape_go]. rewrite escape_len_lit by assumption.
-    cbn [flush obind]. rewrite IH by assumption.
+    cbn [flush_run obind]. rewrite IH by assumption.
     destruct (unescape_go dec s 0 []) as [[tb wb]| |]; reflexivity.
 Qed.
 
@@ -316,7 +316,7 @@ Proof.
     change (flat_map item_text its) with (items_text its).
     destruct ps as [|q ps].
     + cbn [flat_map]. rewrite go_items by (try assumption; exact I). cbn [unescape_go app].
-      pose proof (items_text_nonempty its Hne) as Hn. unfold flush.
+      pose proof (items_text_nonempty its Hne) as Hn. unfold flush_run.
       destruct (items_text its) eqn:E; [congruence|]. rewrite <- E.
       rewrite (unescape_run_items _ _ _ Hc Hi Hd). now rewrite !app_nil_r.
     + destruct q as [[|c cs]|]; try contradiction.
@@ -324,7 +324,7 @@ Proof.
       cbn [flat_map piece_text piece_value] in *. rewrite <- !app_comm_cons in *.
       rewrite go_items by (try assumption; exact Hf).
       rewrite go_lit_flush by (unfold lit_ok in Hcl; tauto). rewrite IH. cbn [app].
-      pose proof (items_text_nonempty its Hne) as Hn. unfold flush.
+      pose proof (items_text_nonempty its Hne) as Hn. unfold flush_run.
       destruct (items_text its) eqn:E; [congruence|]. rewrite <- E.
       rewrite (unescape_run_items _ _ _ Hc Hi Hd). reflexivity.
 Qed.
